@@ -92,10 +92,15 @@ fn extension_group(input: Input<'_>) -> ParserResult<'_, SequenceComponent> {
                     SequenceComponent::ComponentsOf(c) => components_of.push(c),
                 }
             }
+            // a group may consist of COMPONENTS OF clauses only: it is then named after the first type it takes over
+            let first_name = members
+                .first()
+                .map(|m| m.name.as_str())
+                .or(components_of.first().map(|c| c.as_str()))
+                .unwrap_or_default();
             SequenceComponent::Member(SequenceOrSetMember {
                 is_recursive: false,
-                name: String::from(INTERNAL_EXTENSION_GROUP_NAME_PREFIX)
-                    + &members.first().unwrap().name,
+                name: String::from(INTERNAL_EXTENSION_GROUP_NAME_PREFIX) + first_name,
                 tag: None,
                 ty: ASN1Type::Sequence(SequenceOrSet {
                     components_of,
